@@ -477,6 +477,7 @@ func c16Run() {
 	})
 	c16Exhaustion(u, idx)
 	c16ForeignInputs(u, idx)
+	c16ForeignInputsRenter(u, idx)
 	run.Extra[fmt.Sprintf("fault_runs(trusting=%v)", c16Trusting)] = len(jobs)
 	run.Extra[fmt.Sprintf("runs_succeeding(trusting=%v)", c16Trusting)] = okRuns
 	run.Extra[fmt.Sprintf("runs_failing(trusting=%v)", c16Trusting)] = failRuns
@@ -595,5 +596,89 @@ func c16ForeignInputs(u *univ.Universe, idx map[string]int) {
 			run.Violate("c16:foreign-reservation-released:"+kind, fmt.Sprintf("%s: the renter listed an output of the host's wallet that is reserved for another attempt among its inputs; the attempt failed (%v) and the host released that reservation too: host wallet before %s, after %s", kind, err, before, after), map[string]any{"rpc": kind})
 		}
 		r.close()
+	}
+}
+
+// c16ForeignInputsRenter: the mirror case. A lying host lists, among *its* inputs, an output of the renter's
+// wallet that the renter has reserved for something else, and then lets the attempt fail. The renter must
+// release what it reserved for this attempt, not the output the host pointed at.
+func c16ForeignInputsRenter(u *univ.Universe, idx map[string]int) {
+	saved := c16Trusting
+	c16Trusting = false
+	defer func() { c16Trusting = saved }()
+	for _, kind := range []string{"form", "renew", "refresh-full", "refresh-partial"} {
+		for _, enough := range []bool{false, true} {
+			var r *c16Rig
+			var rr *renewRig
+			if kind == "form" {
+				r = newC16Rig(u, idx["m3"], idx["m3"], nil)
+			} else {
+				var err error
+				rr, err = newRenewRig()
+				if err != nil {
+					run.Violate("c16:renew-setup", err.Error(), nil)
+					return
+				}
+				r = rr.c16Rig
+			}
+			other := types.V2Transaction{}
+			if _, _, err := r.renter.w.FundV2Transaction(&other, types.Siacoins(1), false); err != nil || len(other.SiacoinInputs) == 0 {
+				run.Violate("c16:foreign-setup", fmt.Sprintf("renter cannot reserve an output: %v", err), nil)
+				r.close()
+				continue
+			}
+			before := r.renter.footprint()
+			policy := types.SpendPolicy{Type: types.PolicyTypeUnlockConditions(types.StandardUnlockConditions(r.u.As[1].Key.PublicKey()))}
+			lies := []types.V2SiacoinInput{{Parent: other.SiacoinInputs[0].Parent.Copy(), SatisfiedPolicy: types.SatisfiedPolicy{Policy: policy, Signatures: []types.Signature{{1}}}}}
+			if enough {
+				// a second, fabricated input so that the sum covers the host's share and the client goes on to sign
+				fake := types.SiacoinElement{ID: types.SiacoinOutputID{0xAB}, SiacoinOutput: types.SiacoinOutput{Address: r.w.Settings.WalletAddress, Value: types.Siacoins(500)}, StateElement: types.StateElement{LeafIndex: 1}}
+				lies = append(lies, types.V2SiacoinInput{Parent: fake, SatisfiedPolicy: types.SatisfiedPolicy{Policy: policy, Signatures: []types.Signature{{2}}}})
+			}
+			h := &firstAnswerHost{hostKey: r.w.HostKey, accepted: make(chan bool, 1)}
+			switch kind {
+			case "form":
+				h.request, h.second = &proto4.RPCFormContractRequest{}, &proto4.RPCFormContractSecondResponse{}
+				h.answer = func() proto4.Object { return &proto4.RPCFormContractResponse{HostInputs: lies} }
+			case "renew":
+				h.request, h.second = &proto4.RPCRenewContractRequest{}, &proto4.RPCRenewContractSecondResponse{}
+				h.answer = func() proto4.Object { return &proto4.RPCRenewContractResponse{HostInputs: lies} }
+			default:
+				h.request, h.second = &proto4.RPCRefreshContractRequest{}, &proto4.RPCRefreshContractSecondResponse{}
+				h.answer = func() proto4.Object { return &proto4.RPCRefreshContractResponse{HostInputs: lies} }
+			}
+			cctx, cancel := context.WithTimeout(context.Background(), 5*time.Second)
+			cs := r.renter.n.CM.TipState()
+			var err error
+			switch kind {
+			case "form":
+				_, err = rhp.RPCFormContract(cctx, h, r.renter.n.CM, r.signer, cs, r.w.Prices, r.w.HostKey.PublicKey(), r.w.Settings.WalletAddress, proto4.RPCFormContractParams{
+					RenterPublicKey: r.u.As[1].Key.PublicKey(), RenterAddress: r.u.As[1].Addr,
+					Allowance: types.Siacoins(25), Collateral: types.Siacoins(20), ProofHeight: cs.Index.Height + 50,
+				})
+			case "renew":
+				_, err = rhp.RPCRenewContract(cctx, h, r.renter.n.CM, r.signer, cs, r.w.Prices, r.w.Settings.WalletAddress, rr.contract.Revision,
+					proto4.RPCRenewContractParams{ContractID: rr.contract.ID, Allowance: types.Siacoins(25), Collateral: types.Siacoins(20), ProofHeight: rr.contract.Revision.ProofHeight + 10})
+			case "refresh-full":
+				_, err = rhp.RPCRefreshContractFullRollover(cctx, h, r.renter.n.CM, r.signer, cs, r.w.Prices, r.w.Settings.WalletAddress, rr.contract.Revision,
+					proto4.RPCRefreshContractParams{ContractID: rr.contract.ID, Allowance: types.Siacoins(5), Collateral: types.Siacoins(4)})
+			default:
+				_, err = rhp.RPCRefreshContractPartialRollover(cctx, h, r.renter.n.CM, r.signer, cs, r.w.Prices, r.w.Settings.WalletAddress, rr.contract.Revision,
+					proto4.RPCRefreshContractParams{ContractID: rr.contract.ID, Allowance: types.Siacoins(30), Collateral: types.Siacoins(24)})
+			}
+			cancel()
+			select {
+			case <-h.accepted:
+			case <-time.After(6 * time.Second):
+			}
+			run.Add(1, 1, 1, 1)
+			run.Distinct("foreign-input-renter", kind, enough, err == nil)
+			if err == nil {
+				run.Violate("c16:foreign-input-accepted:renter:"+kind, kind+": an attempt in which the host listed an output of the renter's own wallet among its inputs succeeded", nil)
+			} else if after := r.renter.footprint(); after != before {
+				run.Violate("c16:foreign-reservation-released:renter:"+kind, fmt.Sprintf("%s: the host listed, among its inputs, an output of the renter's wallet that the renter has reserved for something else; the attempt failed (%v) and the renter released that reservation too: renter wallet before %s, after %s", kind, err, before, after), map[string]any{"rpc": kind, "hostCoversItsShare": enough})
+			}
+			r.close()
+		}
 	}
 }
